@@ -219,7 +219,7 @@ func (i *c11Inst) Key() string {
 		}
 		refs += rep.Hash(i.base.VerifRelDump())
 	}
-	return strings.Join(ks, ";") + "|" + refs + "|" + i.doc.VerifRelDump() + fmt.Sprintf("|r%d t%d n%d", i.reop, i.rend, len(i.doc.Body.Elements))
+	return strings.Join(ks, ";") + "|" + refs + "|" + i.doc.VerifRelDump() + fmt.Sprintf("|r%d t%d n%d", i.reop, i.rend, len(i.doc.Body.Elements)) + "|" + rep.Hash(i.doc.VerifShallowState())
 }
 
 // Deep: evaluate the saved package.
